@@ -238,7 +238,21 @@ class Array(Base):
     def _extract_units(self, args):
         return tuple(self._maybe_unit(a) for a in args)
 
+    def _to_own_unit(self, arg):
+        if isinstance(arg, Quantity):
+            arg = self.__class__(arg)
+        if isinstance(arg, self.__class__):
+            return arg.to(self.unit)
+        return arg
+
     def _wrap_numpy(self, func, *args, **kwargs):
+        if func.__name__ not in APPLY_OP_TO_UNIT:
+            # Operands with different units cannot be combined as raw numbers:
+            # express them in the unit of this array (or fail if incompatible)
+            if isinstance(func, np.ufunc) and func.nin == 2:
+                args = tuple(self._to_own_unit(a) for a in args)
+            elif isinstance(args[0], (tuple, list)):
+                args = (tuple(self._to_own_unit(a) for a in args[0]),) + args[1:]
         if isinstance(args[0], (tuple, list)):
             array_args = (
                 self._extract_arrays_from_args(args[0]),
